@@ -15,6 +15,9 @@ const maxInlineTotal = 2500
 
 func normName(full string) string {
 	// "(*github.com/pion/dtls/v3/internal/flight.Cache).PullAndMerge" -> "flight.Cache.PullAndMerge"
+	if i := strings.Index(full, "["); i > 0 && !strings.HasPrefix(full, "(") {
+		full = full[:i] // instance of a generic function: "slices.Contains[[]T T]" is named after the generic function
+	}
 	s := strings.NewReplacer("(", "", ")", "", "*", "").Replace(full)
 	if i := strings.LastIndex(s, "/"); i >= 0 {
 		s = s[i+1:]
@@ -45,7 +48,15 @@ func matchWatch(w, full string) bool {
 		}
 	}
 	n := normName(full)
-	return n == w || strings.HasSuffix(n, "."+w)
+	if n == w || strings.HasSuffix(n, "."+w) {
+		return true
+	}
+	// instances of generic functions ("slices.Contains[[]T T]") are named after the generic function
+	if i := strings.Index(n, "["); i > 0 {
+		g := n[:i]
+		return g == w || strings.HasSuffix(g, "."+w)
+	}
+	return false
 }
 
 // noteEvent records a call event for the ghost vocabulary called/ncalls/lastarg/lastret.
@@ -72,6 +83,12 @@ func (f *frame) noteEvent(kind string, callee any, args []Term, results []Term) 
 		return
 	}
 	vc.watchHit[w] = true
+	if f.preCall != nil {
+		if vc.preStates == nil {
+			vc.preStates = map[string][]*State{}
+		}
+		vc.preStates[w] = append(vc.preStates[w], f.preCall)
+	}
 	f.recordEvent(w, args, results)
 }
 
@@ -157,6 +174,12 @@ func (f *frame) argTerms(c *ssa.CallCommon) []Term {
 }
 
 func (f *frame) doCall(c *ssa.CallCommon, pos token.Pos, site ssa.Instruction) []Term {
+	f.preCall = f.st // state right before the call: what atCall("name", E) clauses are evaluated in
+	rs := f.doCall1(c, pos, site)
+	return rs
+}
+
+func (f *frame) doCall1(c *ssa.CallCommon, pos token.Pos, site ssa.Instruction) []Term {
 	vc := f.vc
 	sig := c.Signature()
 	if b, ok := c.Value.(*ssa.Builtin); ok {
